@@ -144,6 +144,19 @@ class Mir:
         m = re.fullmatch(r"\(?(_\d+)\.(\d+): [^()]*\)?", e)
         if m:                                                     # field of a tuple temp: (_6.0: u32)
             inner = self._local(fn, m.group(1), depth, seen)
+            if inner.startswith("(") and inner.endswith(")"):
+                parts = _split_args(inner[1:-1])
+                k = int(m.group(2))
+                if len(parts) > 1 and k < len(parts):
+                    return parts[k].strip()                       # projection of a rendered aggregate
+            if inner.startswith("phi(") and inner.endswith(")"):
+                alts = []
+                for a in inner[4:-1].split(" | "):
+                    a = a.strip()
+                    ps = _split_args(a[1:-1]) if a.startswith("(") and a.endswith(")") else []
+                    k = int(m.group(2))
+                    alts.append(ps[k].strip() if len(ps) > 1 and k < len(ps) else a + "." + m.group(2))
+                return "phi(%s)" % " | ".join(sorted(set(alts)))
             return inner if m.group(2) == "0" else inner + "." + m.group(2)
         m = re.fullmatch(r"const (.*)", e)
         if m:
@@ -174,6 +187,10 @@ class Mir:
         m = re.fullmatch(r"\(\*(_\d+)\)", e)
         if m:
             return self._local(fn, m.group(1), depth, seen)
+        if e.startswith("(") and e.endswith(")") and ": " not in e:
+            parts = _split_args(e[1:-1])
+            if len(parts) > 1:                                      # tuple aggregate
+                return "(%s)" % ", ".join(self.render(fn, a, depth - 1, seen) for a in parts)
         # places with projections: ((*_1).0: usize), (*_5)[_8] ...
         locs = RE_LOCAL.findall(e)
         e2 = e
@@ -198,6 +215,10 @@ class Mir:
         if len(ds) == 1 and depth > 0 and loc not in seen:
             # temporaries and immutable `let` bindings are replaced by their definition
             return self.render(fn, ds[0], depth - 1, seen + (loc,))
+        if 1 < len(ds) <= 3 and depth > 1 and loc not in seen:
+            # a variable assigned on several paths: the (sorted) alternatives, so that an edit of one of them is seen
+            alts = sorted({self.render(fn, d, depth - 2, seen + (loc,)) for d in ds})
+            return "phi(%s)" % " | ".join(alts)
         if loc in fn.debug:
             return "{%s}" % fn.debug[loc]          # a variable assigned more than once: a leaf
         return "{t}" if len(ds) <= 1 else "{phi}"
@@ -302,9 +323,37 @@ class Mir:
             parts = nc.split("::")
             if len(parts) >= 2 and qual is not None and parts[-2] != qual and parts[-2] not in ("Self",):
                 continue
-            r = self.canonical(self.render(fn, rhs, depth=6))
+            r = self.canonical(self.render(fn, rhs, depth=9))
             out.add(re.sub(r"\bFixedI\d+\b", "FixedS", re.sub(r"\bFixedU\d+\b", "FixedU", r)))
         return sorted(out)
+
+    def body_fingerprint(self, name_rx):
+        """decision structure of the functions whose MIR name matches: every `switchInt` with its rendered scrutinee
+        and case values, and every value stored into the return place.  Used for *suppliers*: functions whose result
+        establishes the invariant a table entry rests on (parse_bounds for the digit bytes of the parser).  Renames,
+        comments, `let` extraction and operand order of commutative operations do not change it."""
+        import collections
+        out = collections.Counter()
+        rx = re.compile(name_rx)
+        n = 0
+        for fn in self.fns:
+            if not rx.search(fn.name):
+                continue
+            n += 1
+            for bb, sts in fn.blocks.items():
+                for st in sts:
+                    t = st.text
+                    m = re.match(r"^switchInt\((.*)\) -> \[(.*)\]$", t)
+                    if m:
+                        vals = [v.split(":")[0].strip() for v in m.group(2).split(",")]
+                        vals = sorted(v for v in vals if v != "otherwise")
+                        out[self.canonical("switch %s [%s]" % (self.render(fn, m.group(1), depth=6), " ".join(vals)))] += 1
+                        continue
+                    m = RE_ASSIGN.match(t)
+                    if m and (m.group(1) == "_0" or m.group(1).startswith("(_0.") or m.group(1).startswith("((_0")):
+                        rhs = re.sub(r"\s*->\s*(\[.*\]|unwind \w+|bb\d+).*$", "", m.group(2))
+                        out[self.canonical("ret %s" % self.render(fn, rhs, depth=6))] += 1
+        return n, sorted("%dx %s" % (c, r) for r, c in out.items())
 
     def _call_index(self):
         idx = getattr(self, "_calls", None)
